@@ -5,13 +5,16 @@ from fractions import Fraction as F
 HERE = os.path.dirname(os.path.abspath(__file__))
 sys.path.insert(0, os.path.dirname(HERE))
 import numpy as np
-from core import cz, cn, cb, cq, clist, copt
+from core import cz, cn, cb, cq, clist, copt, VERIF
+sys.path.insert(0, os.path.join(VERIF, "translator"))
+import tr_info
 
 PID = "C18"
 PROPS_FILE = "Props/C18.v"
-MODEL_TARGETS = ["Model/JointCounts.vo", "Model/Info.vo"]
+MODEL_TARGETS = ["Model/JointCounts.vo", "Model/Info.vo", "Gen/InfoGen.vo"]
+GEN_FILES = ["Gen/InfoGen.v"]
 CASE_HEADER = """From Coq Require Import List ZArith QArith Bool.
-From EV Require Import CaseLib JointCounts Info.
+From EV Require Import CaseLib JointCounts Info InfoBase InfoGen.
 Import ListNotations.
 Definition nl4_eqb := list_eqb (list_eqb (list_eqb CaseLib.nl_eqb)).
 Definition q3_eqb := pair_eqb (pair_eqb Qeq_bool Qeq_bool) Qeq_bool.
@@ -37,7 +40,9 @@ RULE = ("jc: random integer feature trajectories (1..12 frames, 1..4 features an
         "called right after freeing NaN-filled blocks of the sizes they allocate). wmi: weighted_mi with "
         "uniform (equals unweighted) and dyadic weights. non-trivial := >= 2 frames and >= 2 distinct states (jc/mi), "
         ">= 2 positive cells (ent/kl), non-square or unequal state counts (cc)")
-TRUSTED = ["double-precision evaluation of sum p*log(p/(px*py)) / -sum p log p / sum p log(p/q) from the exact rational "
+TRUSTED = ["translator/tr_info.py (libinfo.pyx:matrix_bincount2d: asserts, allocation, loop nest, increment -> "
+           "Gen/InfoGen.v, proved equal to the model; vocabulary Base/InfoBase.v)",
+           "double-precision evaluation of sum p*log(p/(px*py)) / -sum p log p / sum p log(p/q) from the exact rational "
            "tables (harness glue, tolerance 1e-9)",
            "modelled not verified: OpenMP runtime (schedules are modelled as arbitrary orders of the elementary "
            "increments), NumPy sum/divide/meshgrid/bincount/matmul, C integer conversion of in-range ids",
@@ -301,6 +306,10 @@ def _gen_wmi(rng):
         w = parts
         uniform = len(set(w)) == 1
     return {"kind": "wmi", "X": X, "w": [str(x) for x in w], "n": n, "uniform": uniform}
+
+
+def translate(repo):
+    return tr_info.translate(repo)
 
 
 def generate(rng, tier):
@@ -844,7 +853,14 @@ def coq_check(c, r):
         if r.get("err") == "Crashed":
             return None
         exp = "(Some %s)" % _n4(r["jc"]) if "jc" in r else "(@None tbl4)"
-        return "opt_eqb nl4_eqb (%s) %s" % (_jc_term(c), exp)
+        t = "opt_eqb nl4_eqb (%s) %s" % (_jc_term(c), exp)
+        if c["nx"] is not None and (c["Y"] is None or c["ny"] is not None):
+            # the text regenerated from libinfo.pyx, evaluated on the same input
+            Y = c["X"] if c["Y"] is None else c["Y"]
+            ny = c["nx"] if c["Y"] is None else c["ny"]
+            t = "(%s) && opt_eqb nl4_eqb (gen_matrix_bincount2d %s %s %s %s) %s" % (
+                t, _zll(c["X"]), _zll(Y), cz(c["nx"]), cz(ny), exp)
+        return t
     if k == "mi":
         if "err" in r:
             return None
